@@ -42,7 +42,95 @@ _PEER_RULE = (
     "values present)."
 )
 
+def _c20_gen(r, tier):
+    return gen.gen_c20(r, tier)
+
+
+def _c20_sweep(tier):
+    """Enumerate every seam interruption point of seeded scenarios:
+    {entry, exit, callback 1..K} x 4 exception classes (K from a fault-free dry run)."""
+    import random
+
+    from .runner import execute
+    from .world import DEFAULT_KNOBS
+
+    nsc, cap = (2, 30) if tier == "quick" else (14, 160)
+    knobs = dict(DEFAULT_KNOBS)
+    made = 0
+    i = 0
+    while made < nsc and i < 200:
+        r = random.Random(gen.run_seed(20200, "C20-sweep", i))
+        i += 1
+        sc = gen.gen_c20_scenario(r)
+        dry = sc["prefix"] + [sc["target"]]
+        res = execute(dry, knobs)
+        rec = res["log"][-1]
+        evs = rec.get("events") or []
+        if not evs:
+            continue
+        K = sum(sum((e.get("cb") or {}).values()) for e in evs)
+        lp = evs[0]["seam"] == "linprog"
+        if K > cap or (not lp and K == 0):
+            continue
+        made += 1
+        sites = [{"site": "entry"}, {"site": "exit"}] + ([] if lp else [{"site": "cb", "k": k} for k in range(1, K + 1)])
+        if len(evs) > 1:
+            sites += [{"site": "entry", "entry": 1}, {"site": "exit", "entry": 1}]
+        for site in sites:
+            for exc in gen.EXC_CLASSES:
+                f = dict(site, exc=exc)
+                ops = sc["prefix"] + [gen.with_fault(sc["target"], f)] + sc["suffix"]
+                tag = f"sc{i - 1}:{evs[0].get('method')}:K{K}:{site['site']}{site.get('k', '')}e{site.get('entry', 0)}:{exc}"
+                yield tag, {"knobs": knobs, "ops": ops}
+
+
+def _c18_gen(r, tier):
+    return gen.gen_c18(r, tier)
+
+
 PROPS = {
+    "C18": {
+        "gen": _c18_gen,
+        "sweep": gen.c18_sweep_cases,
+        "level": "exploration",
+        "det_quick": 4,
+        "exhaustive_note": (
+            "sweep part (plain enumeration, not simulation): declaration route {scalar, vector, slice, element, matrix row, column, transposed row, "
+            "sub-matrix row, transpose view, sub-matrix view, diagonal of a symmetric matrix, lower-triangle element} x domain {integer, binary} x "
+            "{linear, quadratic} model x method (9 in quick, all 18 in thorough) x strict {True, False, True-after-relaxed}"
+        ),
+        "rule": (
+            "history part: the C13 edit/solve machine on pools with integer/binary variables (30-100% of declarations), domain edits, 45% strict "
+            "solves: integer variables introduced by subject_to after a solve cached the variable list / LP data, strict solve right after a relaxed "
+            "one on each route.  Oracles: strict=True => an exception raised with ZERO solver entries at the seam, IntegerVariableError naming exactly "
+            "the non-continuous mentioned variables of the shadow state; strict=False with a returned solution => a relaxation UserWarning naming "
+            "exactly those variables, and the result (status, values, objective, data handed to the solver) equals, tightly, the solve of the same "
+            "shadow state with all domains continuous (binary keeps [0,1]) in a pristine process; every element reached through every route carries "
+            "the declared domain, binary => [0,1].  Distinct/non-trivial: (strict|relaxed, solver entries, outcome, cache-fill state, |D|)."
+        ),
+        "assumptions": COMMON_ASSUMPTIONS + ["NonLinearError / NoObjectiveError raised before any solver entry are accepted for strict=True (also 'raised before any solver ran')"],
+    },
+    "C20": {
+        "gen": _c20_gen,
+        "sweep": _c20_sweep,
+        "level": "fault_enumeration",
+        "exhaustive_note": (
+            "sweep part: for each enumerated scenario, EVERY seam interruption point {solver entry, each of the K callback events of the "
+            "fault-free run, solver exit} x {ValueError, FloatingPointError, MemoryError, KeyboardInterrupt} is injected (exhaustive at "
+            "callback granularity for those scenarios); the seeded part samples further scenarios, double faults, faults inside "
+            "increased_recursion_limit, scripted callback orders and the SLSQP->trust-constr retry entry"
+        ),
+        "rule": (
+            "a seeded problem (LP/QP/NLP, cold or warm caches, hess_fn present or not), one solve faulted at the solver seam (exception raised at "
+            "solver entry, instead of the k-th objective/gradient/constraint/Jacobian/Hessian callback, or after SciPy returned), optionally inside "
+            "increased_recursion_limit, optionally twice, then fault-free solves with the same and with a Hessian method.  Oracles: (i) if the "
+            "injected exception left the solver, the call returned FAILED or propagated that exception; (ii) warnings.showwarning is the object "
+            "installed before the call and sys.getrecursionlimit() is unchanged after every operation; (iii) every later solve/read equals the same "
+            "call on the same problem built alone in a pristine process.  Distinct/non-trivial: (site, callback kind, exception class, solver "
+            "method, outcome, inside-with, number of solver entries)."
+        ),
+        "assumptions": COMMON_ASSUMPTIONS + ["fault model = the property's: the solver or a callback raises; asynchronous exceptions inside optyx's own frames are not injected"],
+    },
     "C06": {
         "gen": _c06_gen,
         "level": "exploration",
